@@ -328,3 +328,32 @@ def aero_model(surfaces, point="ap", **opts):
             model.connect(n + "_def_mesh", point + ".aero_states." + n + "_def_mesh")
             model.connect(n + "_t_over_c", point + "." + n + "_perf.t_over_c")
     return build
+
+
+def struct_model(surface):
+    """builder for the structural chain of SpatialBeamAlone without the design-variable parametrisation: an IndepVarComp
+    with mesh, section properties and applied loads; SpatialBeamSetup, SpatialBeamStates and SpatialBeamFunctionals
+    promoted exactly as SpatialBeamAlone promotes them (tube model)"""
+    from openaerostruct.structures.spatial_beam_setup import SpatialBeamSetup
+    from openaerostruct.structures.spatial_beam_states import SpatialBeamStates
+    from openaerostruct.structures.spatial_beam_functionals import SpatialBeamFunctionals
+
+    def build(model):
+        ny = surface["mesh"].shape[1]
+        ivc = om.IndepVarComp()
+        ivc.add_output("mesh", val=surface["mesh"], units="m")
+        for n, u in (("A", "m**2"), ("Iy", "m**4"), ("Iz", "m**4"), ("J", "m**4"), ("radius", "m"), ("thickness", "m")):
+            ivc.add_output(n, val=np.ones(ny - 1), units=u)
+        ivc.add_output("loads", val=np.ones((ny, 6)), units="N")
+        promotes = []
+        if surface["struct_weight_relief"]:
+            promotes += ["nodes", "element_mass", "load_factor"]
+            ivc.add_output("load_factor", val=1.0)
+        model.add_subsystem("inputs", ivc, promotes=["*"])
+        model.add_subsystem("struct_setup", SpatialBeamSetup(surface=surface), promotes_inputs=["mesh", "A", "Iy", "Iz", "J"],
+                            promotes_outputs=["nodes", "local_stiff_transformed", "structural_mass", "cg_location", "element_mass"])
+        model.add_subsystem("struct_states", SpatialBeamStates(surface=surface),
+                            promotes_inputs=["local_stiff_transformed", "forces", "loads"] + sorted(set(promotes)), promotes_outputs=["disp"])
+        model.add_subsystem("struct_funcs", SpatialBeamFunctionals(surface=surface), promotes_inputs=["thickness", "radius", "nodes", "disp"],
+                            promotes_outputs=["thickness_intersects", "vonmises", "failure"])
+    return build
